@@ -3,4 +3,4 @@ import broker
 
 
 def run(res, tier, seed, replay):
-    return broker.run_property(res, "C09", tier, seed, replay, ["C09", "C09sys"])
+    return broker.run_property(res, "C09", tier, seed, replay, ["C09", "C09sys", "C09float"])
